@@ -39,6 +39,49 @@ impl BindingFlags {
     }
 }
 
+/// Verification hook (`--cfg boa_verif`): conservative compilation switches for this thread.
+/// While `LOCALS` is set every binding is created as escaping (it lives in an environment, never
+/// in a register); the other bits make the byte compiler skip one operand shortcut each
+/// (constant-binding cache, loop-invariant hoisting, fused compare-and-branch).
+#[cfg(boa_verif)]
+pub mod verif {
+    use std::cell::Cell;
+
+    /// Every binding lives in an environment.
+    pub const LOCALS: u8 = 1;
+    /// No register copy of constant bindings.
+    pub const CONST_CACHE: u8 = 2;
+    /// No hoisting of loop-invariant operands.
+    pub const HOIST: u8 = 4;
+    /// No fused compare-and-branch opcodes.
+    pub const FUSED: u8 = 8;
+
+    thread_local! {
+        static CONSERVATIVE: Cell<u8> = const { Cell::new(0) };
+    }
+
+    /// Sets the decisions forced to their conservative choice on this thread.
+    pub fn set_conservative(bits: u8) {
+        CONSERVATIVE.with(|c| c.set(bits));
+    }
+
+    /// Whether the given decision is forced to its conservative choice.
+    #[must_use]
+    pub fn conservative(bit: u8) -> bool {
+        CONSERVATIVE.with(Cell::get) & bit != 0
+    }
+}
+
+#[cfg(boa_verif)]
+fn verif_conservative() -> bool {
+    verif::conservative(verif::LOCALS)
+}
+
+#[cfg(not(boa_verif))]
+const fn verif_conservative() -> bool {
+    false
+}
+
 #[derive(Clone, Debug, PartialEq)]
 struct Binding {
     name: JsString,
@@ -392,7 +435,7 @@ impl Scope {
         }
         let mut flags = BindingFlags::MUTABLE;
         flags.set(BindingFlags::LEX, !function_scope);
-        flags.set(BindingFlags::ESCAPES, self.is_global());
+        flags.set(BindingFlags::ESCAPES, self.is_global() || verif_conservative());
         bindings.push(Binding {
             name: name.clone(),
             index: binding_index,
@@ -416,7 +459,7 @@ impl Scope {
         let binding_index = bindings.len() as u32;
         let mut flags = BindingFlags::LEX;
         flags.set(BindingFlags::STRICT, strict);
-        flags.set(BindingFlags::ESCAPES, self.is_global());
+        flags.set(BindingFlags::ESCAPES, self.is_global() || verif_conservative());
         bindings.push(Binding {
             name,
             index: binding_index,
